@@ -207,10 +207,7 @@ impl IntoLower for ast::Identifier {
                 }
             }
             ast::Symbol::Output(index) => Ok(ir::Expression::Number(*index as i128)),
-            _ => {
-                dbg!(&self);
-                todo!();
-            }
+            _ => Err(Error::InvalidSymbol(self.value.clone(), "a value")),
         }
     }
 }
@@ -260,7 +257,12 @@ impl IntoLower for ast::StructConstructor {
                     .case
                     .spread
                     .as_ref()
-                    .expect("spread must be set for missing explicit field")
+                    .ok_or_else(|| {
+                        Error::MissingRequiredField(
+                            field_def.name.value.clone(),
+                            "record constructor without spread",
+                        )
+                    })?
                     .into_lower(ctx)?;
 
                 fields.push(ir::Expression::EvalBuiltIn(Box::new(
@@ -467,6 +469,13 @@ impl IntoLower for ast::FnCall {
 
                 match coerce_identifier_into_asset_def(&self.callee) {
                     Ok(asset_def) => {
+                        if self.args.is_empty() {
+                            return Err(Error::InvalidAst(format!(
+                                "{} expects an amount",
+                                function_name
+                            )));
+                        }
+
                         let policy = asset_def.policy.into_lower(ctx)?;
                         let asset_name = asset_def.asset_name.into_lower(ctx)?;
                         let amount = self.args[0].into_lower(ctx)?;
